@@ -502,3 +502,52 @@ func TestAsk(t *testing.T) {
 		report(t, s, res, func() { t.Skip("known") })
 	})
 }
+
+// TestNearDeadline: "all reply latencies relative to the timeout ... shortly before/after it". On one
+// actor, a request whose reply lands within a few microseconds of its deadline is followed by an
+// unrelated request with a comfortable timeout that is answered at once: whatever the first one did
+// to timers / channels, the second must get its own reply with a nil error.
+func TestNearDeadline(t *testing.T) {
+	if vlib.Replaying() {
+		t.Skip()
+	}
+	rounds := vlib.Pick(500, 5000)
+	const timeout = 1200 * time.Microsecond
+	var delay int64 // microseconds the actor waits before replying to "near" requests
+	actor := fpgo.ActorNewGenerics(func(_ *fpgo.ActorDef[interface{}], msg interface{}) {
+		a, ok := msg.(*fpgo.AskDef[int, int])
+		if !ok {
+			return
+		}
+		if a.Message < 0 {
+			// spin (not sleep) so that the reply lands close to the asker's deadline
+			until := time.Now().Add(time.Duration(atomic.LoadInt64(&delay)) * time.Microsecond)
+			for time.Now().Before(until) {
+			}
+		}
+		vlib.Try(func() { a.Reply(f(a.Message)) })
+	})
+	defer actor.Close()
+	for r := 0; r < rounds; r++ {
+		// sweep the reply moment across [timeout-60us, timeout+20us]
+		atomic.StoreInt64(&delay, int64(timeout/time.Microsecond)-60+int64(r%81))
+		id := -(r + 1)
+		got, err := fpgo.AskNewGenerics[int, int](id).AskOnceWithTimeout(actor, timeout)
+		vlib.S().Eval("near-deadline")
+		if !(err == nil && got == f(id)) && !(err == fpgo.ErrActorAskTimeout && got == 0) {
+			vlib.Fail(t, "C13/timeout-result", "near-deadline ask %d = (%d,%v): neither its reply nor a clean timeout", id, got, err)
+			return
+		}
+		// the unrelated, comfortable request
+		t0 := time.Now()
+		got2, err2 := fpgo.AskNewGenerics[int, int](r+1).AskOnceWithTimeout(actor, 2*time.Second)
+		if err2 != nil || got2 != f(r+1) {
+			vlib.WriteReplay("C13/near-deadline", map[string]any{"round": r, "delayUs": atomic.LoadInt64(&delay)})
+			vlib.Fail(t, "C13/later-ask-disturbed", "round %d: after a request answered %dus into a %v timeout, the next request (timeout 2s, answered at once) returned (%d,%v) after %v, want (%d,nil)", r, atomic.LoadInt64(&delay), timeout, got2, err2, time.Since(t0), f(r+1))
+			return
+		}
+		if r%100 == 0 {
+			vlib.S().NonTrivial("near-deadline", fmt.Sprintf("round %d reply at %dus of a %v timeout", r, atomic.LoadInt64(&delay), timeout))
+		}
+	}
+}
